@@ -1,7 +1,31 @@
 use time::OffsetDateTime;
 
 fn now() -> i64 {
+    #[cfg(feature = "verif")]
+    if let Some(now) = verif::overridden_now() {
+        return now;
+    }
     OffsetDateTime::now_utc().unix_timestamp()
+}
+
+/// Verification hooks (additive, `verif` feature only): a thread-local override of the wall clock
+/// so that an external harness can run the model at the same time as the on-chain program.
+#[cfg(feature = "verif")]
+pub mod verif {
+    use std::cell::Cell;
+
+    thread_local! {
+        static NOW: Cell<Option<i64>> = const { Cell::new(None) };
+    }
+
+    /// Override (or restore with `None`) the current time seen by the model on this thread.
+    pub fn set_now(now: Option<i64>) {
+        NOW.with(|n| n.set(now));
+    }
+
+    pub(super) fn overridden_now() -> Option<i64> {
+        NOW.with(|n| n.get())
+    }
 }
 
 pub(super) struct AsClock<'a> {
